@@ -21,5 +21,41 @@ CFG.update(
         ('lemmas/vspec.rs', '        default_world::<C>(),\n', ''),
         ('lemmas/vspec.rs', '    ax_default_world::<C>();\n', ''),
         ('lemmas/vworld.rs', 'pub axiom fn ax_default_world<C: Ciphersuite>()\n    ensures default_world::<C>();', ''),
+        # Verus crashes (rustc ICE "escaping bound vars") on ANY impl whose associated type has to satisfy a higher-ranked bound, so the
+        # concrete suite cannot be declared with it; the only users of the bound are the two byte-slice -> Serialization conversions of
+        # serialization.rs (verified in the frost_core unit, assumed here: `force_assumed`)
+        ('prelude/traits.rs', "type Serialization: Clone + Bytes + for<'a> TryFrom<&'a [u8]> + Debug;", 'type Serialization: Clone + Bytes + Debug;', 2),
     ],
 )
+
+TR_FILE = 'frost-secp256k1-tr/src/lib.rs'
+TR_TYPE = 'crate::secp256k1_tr::Secp256K1Sha256TR'
+# names the dropped external `use` lines of the Taproot crate provided (k256 / sha2 / alloc / rand_core), taken from the model; NO glob
+# import of the contract vocabulary (the crate defines its own `Identifier`, `Error`, `Signature`, ... aliases)
+TR_USE = ('#[allow(unused_imports)] use vstd::prelude::*; #[allow(unused_imports)] use std::borrow::Cow; '
+          '#[allow(unused_imports)] use std::collections::BTreeMap; #[allow(unused_imports)] use std::vec::Vec; '
+          '#[allow(unused_imports)] use crate::k256_model::{AffinePoint, ProjectivePoint, Scalar, Sha256, U256, FieldBytes}; '
+          '#[allow(unused_imports)] use crate::traits::CryptoRng; #[allow(unused_imports)] use crate::vstdx::cow_ref; #[allow(unused_imports)] use vstd::string::StringSliceAdditionalSpecFns; #[allow(unused_imports)] use vstd::std_specs::iter::IteratorSpec; '
+          '#[allow(unused_imports)] use vstd::std_specs::cmp::*; #[allow(unused_imports)] use vstd::std_specs::ops::*; #[allow(unused_imports)] use vstd::std_specs::convert::*;')
+TR_HINTS = ('broadcast use crate::vstdx::group_cow;\nbroadcast use crate::k256_model::ax_choice_not;\n'
+            'proof { crate::vspec::use_algebra::<%s>(); crate::vspec::use_id_order::<%s>(); }\n' % (TR_TYPE, TR_TYPE))
+
+CFG['modules'] = CFG['modules'] + [('secp256k1_tr', os.path.join(REPO, TR_FILE))]
+CFG['foreign_prefixes'] = ['frost-secp256k1-tr/src']
+CFG['path_rewrites'] = [(r'\bcrate::', 'crate::secp256k1_tr::'), (r'\bfrost_core::', 'crate::'),
+                        (r'\bconst (\w+): &str\b', r"const \1: &'static str")]     # verus! needs the lifetime of a const reference spelled out
+CFG['module_use'] = {'secp256k1_tr': TR_USE}
+CFG['module_entry_hints'] = {'secp256k1_tr': TR_HINTS}
+CFG['drop_trait_impls'] = [r'^RandomizedCiphersuite$']       # frost-rerandomized is a different unit (C17)
+# bodies that use k256 / sha2 / hash2curve APIs outside prelude/k256_model.rs: emitted as signature + assumed contract only
+CFG['elide_body'] = [r' :: Field for Secp256K1ScalarField :: ', r' :: Group for Secp256K1Group :: ', r' :: hash_to_array$', r' :: hash_to_scalar$',
+                     r' :: Ciphersuite for Secp256K1Sha256TR :: (H1|H3|H4|H5|HDKG|HID)$']
+CFG['contract_dirs'] = CFG['contract_dirs'] + [os.path.join(VERIF, 'contracts_tr')]
+CFG['prelude_files'] = CFG['prelude_files'] + ['prelude/k256_model.rs', 'lemmas/vspec_tr.rs']
+CFG['prelude_modules'] = dict(CFG['prelude_modules'], k256_model=None, vspec_tr=None, vworld_tr=None)
+CFG['postlude_files'] = []
+# frost-secp256k1-tr depends on frost-rerandomized, which enables frost-core's `internals` feature (cargo unifies features): the
+# `#[cfg(feature = "internals")]` constructors (Signature::new, GroupCommitment::from_element, BindingFactorList::new) exist in this build
+CFG['features'] = ['internals']
+CFG['force_assumed'] = [r'serialization\.rs :: Serializable(Scalar|Element)<C> :: deserialize$']
+CFG['elide_body'] += CFG['force_assumed']
